@@ -282,6 +282,21 @@ fn setup_pair(seed: u64, name: &str) -> Setup {
     if ss_list.is_empty() {
         ss_list.push((0, false, 0));
     }
+    // two experiments in five: a script that is NOT registered yet is added (partial) from the current filter position,
+    // so that set_scripts does not rewind: a batch that was matched against the script set of before must not lift
+    // the new script over blocks that hold its cells (seed C17-7)
+    let (ss_cmd, ss_list) = if rng.gen_bool(0.4) {
+        let registered: Vec<ckb_types::packed::Script> = sim.client().storage.get_filter_scripts().into_iter().map(|x| x.script).collect();
+        let fresh: Vec<usize> = (0..nscripts).filter(|k| !registered.iter().any(|r| r.as_slice() == sim.chain.scripts[*k].as_slice())).collect();
+        if fresh.is_empty() {
+            (ss_cmd, ss_list)
+        } else {
+            let min_f = sim.client().storage.get_min_filtered_block_number();
+            ("partial".to_string(), vec![(fresh[rng.gen_range(0..fresh.len())], false, min_f)])
+        }
+    } else {
+        (ss_cmd, ss_list)
+    };
     Setup { sim, env, interval, ss: (ss_cmd, ss_list), buf, fk: 1, old_tip: a_tip }
 }
 
